@@ -501,7 +501,8 @@ SPEC = {
     "theorems": ["C18_refuted", "C18_plain_guard_refuted", "C18_deterministic", "C18_total", "C18_total_parsed", "C18_respacing",
                  "C18_respacing_plain", "C18_chunks_setting_independent", "C18_chunks_text", "C18_modulo_lexing"],
     # the end-to-end theorem: bridge parser -> token groups (proofs/BridgeProofs.v) + L-respace
-    "more": [{"module": "C18p", "target": "props/C18p.vo",
+    "more": [{"module": "LrespaceC18", "target": "props/LrespaceC18.vo", "theorems": ["C18_from_token_groups"]},
+             {"module": "C18p", "target": "props/C18p.vo",
               "theorems": ["C18_partial", "C18_partial_lexemes", "C18_bridge", "C18_bridge_any_tables", "L_respace_glued_trail_thm",
                            "C18_exact_groups_refuted"]},
              # the same under the weaker guard "no text dropped": numerals re-spelled by the parser are covered
